@@ -894,6 +894,19 @@ func Apply(ctx context.Context, repo gitstore.Storer, signRSLEntry bool) error {
 		return fmt.Errorf("staged policy is invalid: %w", err)
 	}
 
+	if !policyTip.IsZero() {
+		// The staged policy must be a valid successor of the currently applied
+		// policy (root of trust, rollback protection), as this is what is
+		// checked when the policy is loaded for verification after it's applied
+		currentState, err := LoadCurrentState(ctx, repo, PolicyRef)
+		if err != nil {
+			return fmt.Errorf("failed to load current state: %w", err)
+		}
+		if err := currentState.VerifyNewState(ctx, state); err != nil {
+			return fmt.Errorf("staged policy is invalid: %w", err)
+		}
+	}
+
 	// Update the reference for the base to point to the new commit
 	if err := repo.SetReference(PolicyRef, policyStagingTip); err != nil {
 		return fmt.Errorf("failed to set new policy reference: %w", err)
